@@ -81,9 +81,10 @@ def device_info_name_from_unique_short_name(service_name: str) -> str:
     return service_name
 
 
-def _sleep_proxy_device_info_name_from_short_name(service_name: str) -> str:
+def _sleep_proxy_device_info_name_from_short_name(service_name: str) -> Optional[str]:
     """Convert an sleep proxy service name to a name."""
-    return service_name.split(" ", maxsplit=1)[1]
+    parts = service_name.split(" ", maxsplit=1)
+    return parts[1] if len(parts) == 2 else None
 
 
 def get_unique_identifiers(
@@ -489,6 +490,7 @@ class ZeroconfScanner(BaseScanner):
                             {
                                 k.decode("ascii"): mdns.decode_value(v)
                                 for k, v in service_info.properties.items()
+                                if k.isascii()  # Keys are explicitly ASCII only
                             }
                         ),
                     )
